@@ -233,6 +233,13 @@ def main(argv=None):
             report.coverage["traces_validated_against_impl"] = len(traces)
         except tlc.TLCFailure as exc:
             report.machinery(str(exc)[:3000])
+        # Layer G: what a restart does with files that changed while no director was running is
+        # update_file_hashes(cause=EXTERNAL) on whatever state the kill left behind: the External action
+        # of spec/FileStep.tla, replayed into the real Workflow from every reachable file/step state
+        from checks import filestep
+        fs = filestep.run(report, args.tier, args.seed, "C05")
+        report.coverage["filestep"] = fs
+        report.coverage["states"] = report.coverage.get("states", 0) + fs.get("states", 0)
         report.coverage["crash_points_enumerated"] = total
         report.coverage["crash_points_restarted"] = run
         report.coverage["evaluations"] = run
